@@ -11,7 +11,7 @@ from .facts import Run, normal
 from .interp import Ctx, analyse_function, analyse_method, exc_is_subclass
 from .model import AnalysisError
 from .report import RuleResult
-from .terms import Child, Const, Sym, Term, Val
+from .terms import Child, Const, Fn, New, Sym, Term, Val
 
 
 # ------------------------------------------------------------------ R-FP
@@ -302,6 +302,50 @@ def rule_CP(run: Run) -> RuleResult:
     if not saw_set:
         ok_h = False
         d_h = d_h or "cache.set is never called"
+    # Cache.exists (the default a backend inherits): present exactly when get() succeeds
+    cb = repo.cls("labrea.cache.Cache")
+    ex_fn = cb.methods.get("exists")
+    if ex_fn is not None:
+        ctx_e = Ctx(repo)
+        ctx_e.no_inline = {"get", "set"}
+        eps_ = analyse_function(ctx_e, cb.module, ex_fn, cls=cb)
+        ok_e, why_e, outcomes_ = bool(eps_), "", set()
+        for p in eps_:
+            gets = [e for e in p.events if e.kind == "call" and e.text == "get"]
+            k = p.ret.key() if p.status == "ret" and p.ret is not None else p.status
+            outcomes_.add(k)
+            if not gets or len(gets[0].args) < 2 or [a.key() for a in gets[0].args[:2]] != astu.param_names(ex_fn)[:2]:
+                ok_e, why_e = False, "does not try get(evaluatable, options)"
+            elif (k == "Const(True)") != (not gets[0].failed) or k not in ("Const(True)", "Const(False)"):
+                ok_e, why_e = False, f"returns {k} when get() {'fails' if gets[0].failed else 'succeeds'}"
+        res.add("labrea.cache.Cache.exists:present exactly when get() succeeds", ok_e and outcomes_ == {"Const(True)", "Const(False)"}, cb.module.relpath, ex_fn.lineno,
+                why_e or "try: get(...); return True / except CacheGetFailure: return False",
+                "a backend that implements only get/set relies on this default; a wrong answer makes Cached skip or repeat the computation (C17, C02)")
+    # cached(x [, cache]) and cached(cache)(x) both wrap x (not the cache) in Cached
+    cf = repo.functions.get("labrea.cache.cached")
+    if cf is not None:
+        from .interp import Frame as _Fr
+        cps_ = analyse_function(Ctx(repo), cf.module, cf.node)
+        fp_ = [a.arg for a in cf.node.args.posonlyargs + cf.node.args.args]
+        ok_c, why_c = bool(cps_), ""
+        for p in cps_:
+            is_cache = _Fr.atoms(p.conds).get(f"call:isinstance({fp_[0]},class<labrea.cache.Cache>)")
+            r_ = p.ret
+            if isinstance(r_, New) and r_.cls.name == "Cached":
+                if is_cache is not False or r_.attrs["evaluatable"].key() != fp_[0] or fp_[1] not in r_.attrs["cache"].key():
+                    ok_c, why_c = False, f"direct form builds {r_.key()[:80]}"
+            elif isinstance(r_, Fn) and isinstance(r_.node, ast.Lambda):
+                lam = r_.node
+                lp = [a.arg for a in lam.args.args]
+                b = lam.body
+                good = is_cache is True and isinstance(b, ast.Call) and astu.short_name(b) in ("cached", "Cached") and len(b.args) == 2 \
+                    and ast.unparse(b.args[0]) == lp[0] and ast.unparse(b.args[1]) == fp_[0]
+                if not good:
+                    ok_c, why_c = False, f"decorator form returns {ast.unparse(lam)[:70]}"
+            else:
+                ok_c, why_c = False, f"returns {r_.key()[:60] if r_ is not None else p.status}"
+        res.add("labrea.cache.cached:wraps the evaluatable (not the cache) in both call forms", ok_c, cf.module.relpath, cf.node.lineno,
+                why_c or "Cached(x, cache or MemoryCache()) / lambda evaluatable: cached(evaluatable, cache)", "the cached object must be the evaluatable (C01, C02)")
     res.add("labrea.cache._set_cache_handler:store-then-read-back", ok_h, h.module.relpath, h.node.lineno,
             d_h or "stores, then returns the read-back value or request.value when the read-back fails",
             "the canonical stored value (or the computed one) must be returned (C02, C17)")
